@@ -12,6 +12,8 @@ R7.6  IEEE sign predicates are not a three-way comparison: an `else` arm after i
 R7.7  bisection's loop is a counter loop bounded by n_max (termination bound); Brent/ITP termination rests on numerical
       contraction and is not decided.
 """
+import itertools
+
 import sympy as sp
 
 from bsa import cfg, guards, logic, paths, sym
@@ -48,7 +50,7 @@ def all_binds(body):
         for i, nm in pat_binds(p):
             out.setdefault(nm, []).append(i)
     for n in walk(body["body"]):
-        if n.get("k") == "LetS":
+        if n.get("k") in ("LetS", "For"):
             for i, nm in pat_binds(n["pat"]):
                 out.setdefault(nm, []).append(i)
     return out
@@ -396,6 +398,203 @@ def check_cached_values(F, run, name, b, loop):
                       sample="%s = f(%s) preserved on path %s" % (v, u, inst))
 
 
+# ---- R7.8: the bracket keeps a sign change — finite reachability over IEEE signs ---------------------------------------------
+SB = sp.Function("signbit")
+SG = ("N", "NZ", "PZ", "P")            # negative, −0.0, +0.0, positive
+_BIT = {"N": 1, "NZ": 1, "PZ": 0, "P": 0}
+_ZERO = {"N": False, "NZ": True, "PZ": True, "P": False}
+
+
+def _mk(bit, zero):
+    return ("NZ" if bit else "PZ") if zero else ("N" if bit else "P")
+
+
+class SignInterp(guards.GInterp):
+    """is_sign_positive / is_sign_negative are kept as tests of the IEEE sign bit (not as >= 0 / < 0)."""
+    def ev_MCall(self, n):
+        if n["name"] in ("is_sign_positive", "is_sign_negative") and not n["args"]:
+            x = self.num(self.ev(n["recv"]), n)
+            return sp.Eq(SB(x), 0 if n["name"] == "is_sign_positive" else 1)
+        return guards.GInterp.ev_MCall(self, n)
+
+
+def signs_of(e, sigma):
+    """Possible IEEE signs of the value of e when the function values (atoms f(..)) have the signs sigma; unknown -> all four."""
+    e = sp.sympify(e)
+    if e in sigma:
+        return {sigma[e]}
+    if e.is_number:
+        if e == 0:
+            return {"PZ"}
+        return {"P"} if e > 0 else {"N"}
+    if isinstance(e, sp.Mul):
+        cur = {"P1"}
+        acc = {(0, False)}
+        for a in e.args:
+            sa = signs_of(a, sigma)
+            nxt = set()
+            for (b, z) in acc:
+                for t in sa:
+                    nb, nz = b ^ _BIT[t], z or _ZERO[t]
+                    nxt.add((nb, nz))
+                    if not nz:
+                        nxt.add((nb, True))        # a product of non-zeros may underflow to a zero of the same sign
+            acc = nxt
+        return {_mk(b, z) for b, z in acc}
+    if isinstance(e, sp.Abs):
+        return {_mk(0, _ZERO[t]) for t in signs_of(e.args[0], sigma)}
+    if isinstance(e, sp.sign):
+        return {_mk(_BIT[t], False) for t in signs_of(e.args[0], sigma)}
+    if isinstance(e, sp.Pow) and e.args[1] == -1:
+        return {t for t in signs_of(e.args[0], sigma) if not _ZERO[t]} or set(SG)
+    return set(SG)
+
+
+def truth_of(l, sigma):
+    """Possible truth values of a path literal under sigma (three-valued: {True}, {False} or both)."""
+    BOTH = {True, False}
+    if l is sp.true:
+        return {True}
+    if l is sp.false:
+        return {False}
+    if isinstance(l, sp.Not):
+        return {not t for t in truth_of(l.args[0], sigma)}
+    if isinstance(l, sp.And):
+        r = {True}
+        for a in l.args:
+            ta = truth_of(a, sigma)
+            r = {x and y for x in r for y in ta}
+        return r
+    if isinstance(l, sp.Or):
+        r = {False}
+        for a in l.args:
+            ta = truth_of(a, sigma)
+            r = {x or y for x in r for y in ta}
+        return r
+    if isinstance(l, (sp.Eq, sp.Ne)) and l.lhs.func == SB and l.rhs in (0, 1):
+        ss = signs_of(l.lhs.args[0], sigma)
+        r = {(_BIT[t] == int(l.rhs)) for t in ss}
+        return r if isinstance(l, sp.Eq) else {not t for t in r}
+    if isinstance(l, (sp.Eq, sp.Ne)):
+        from sympy.logic.boolalg import Boolean
+        a, b_ = l.lhs, l.rhs
+        r = None
+        if isinstance(a, Boolean) and isinstance(b_, Boolean):
+            # equality of two sign tests: `x.is_sign_positive() == y.is_sign_positive()`
+            r = {x == y for x in truth_of(a, sigma) for y in truth_of(b_, sigma)}
+        elif isinstance(a, sp.sign) and isinstance(b_, sp.sign):
+            # Rust's signum is ±1 by the sign bit (signum(−0.0) = −1)
+            r = {_BIT[x] == _BIT[y] for x in signs_of(a.args[0], sigma) for y in signs_of(b_.args[0], sigma)}
+        if r is not None:
+            return r if isinstance(l, sp.Eq) else {not t for t in r}
+    if isinstance(l, sp.core.relational.Relational):
+        lhs, rhs = l.lhs, l.rhs
+        if lhs == 0 and rhs != 0:
+            l = l.reversed
+            lhs, rhs = l.lhs, l.rhs
+        if rhs == 0:
+            ss = signs_of(lhs, sigma)
+            if ss == set(SG) and not any(lhs.has(a) for a in sigma):
+                return BOTH
+            out = set()
+            for t in ss:
+                v = 0 if _ZERO[t] else (-1 if _BIT[t] else 1)
+                out.add(bool(l.func(v, 0)))
+            return out
+    return BOTH
+
+
+def check_sign_reachability(F, run, name, b, loop):
+    """R7.8.  State at the loop head = (IEEE sign of f at `left`, IEEE sign of f at `right`), signs in {negative, −0, +0, positive}.  Entry states
+    are those that pass the guard prefix; one iteration is explored path-sensitively and every path literal that tests a function value
+    (sign-bit predicates, comparisons with 0, products — which may underflow to a zero) is evaluated on the signs; the function value at a
+    new abscissa is any of the four.  Every reachable state must still bracket: not both ends strictly positive, not both strictly negative."""
+    dp = FNS[name]
+    ends = ("left", "right")
+    caches = {"bisection": {"left": "f_a"}, "brent": {"left": "f_left", "right": "f_right"}, "itp": {"left": "f_left", "right": "f_right"}}[name]
+    try:
+        pre = paths.explore(F, b, stop_at=guards.first_loop(b)[0], interp_cls=SignInterp)
+    except sym.Unsupported as u:
+        run.broken("R7.8", dp, "prefix", F.loc(b, u.node if isinstance(u.node, dict) else None), str(u))
+        return
+
+    def end_exprs(it):
+        cur = {nm: it.env.get(i) for i, nm in it.names.items()}
+        return cur
+
+    def atoms_f(it):
+        f = it.fn_atoms.get("f")
+        return f
+
+    states = set()
+    for p in pre:
+        if not p.fell_through:
+            continue
+        it = p.interp
+        f = it.fn_atoms.get("f")
+        cur = end_exprs(it)
+        if f is None or any(cur.get(e) is None for e in ends):
+            run.broken("R7.8", dp, "entry", F.loc(b), "no bracket ends / no function value before the loop")
+            return
+        fl, fr = f(cur["left"]), f(cur["right"])
+        atoms = sorted({a for l in p.pc for a in l.atoms(sp.Function) if a.func == f} | {fl, fr}, key=str)
+        for combo in itertools.product(SG, repeat=len(atoms)):
+            sigma = dict(zip(atoms, combo))
+            if all(True in truth_of(l, sigma) for l in p.pc):
+                states.add((sigma[fl], sigma[fr]))
+    if not states:
+        run.broken("R7.8", dp, "entry", F.loc(b), "no abstract state passes the guard prefix")
+        return
+    n_entry = len(states)
+    L0, R0 = sym.S("LEFT0"), sym.S("RIGHT0")
+    values = {"left": L0, "right": R0}
+    for e_, c_ in caches.items():
+        values[c_] = (lambda pos: (lambda it: it.fn_atom("f")(pos)))(values[e_])
+    try:
+        lps = paths.explore(F, b, setup=preset_all(b, values), node=loop["body"], interp_cls=SignInterp, limit=512)
+    except sym.Unsupported as u:
+        run.broken("R7.8", dp, "iteration", F.loc(b, u.node if isinstance(u.node, dict) else loop), str(u))
+        return
+    # transitions, computed once per path as a function of (state, signs of the new function values)
+    work = list(states)
+    seen = set(states)
+    witness = {}
+    n_trans = 0
+    while work:
+        st = work.pop()
+        for pi, p in enumerate(lps):
+            it = p.interp
+            f = it.fn_atom("f")
+            cur = end_exprs(it)
+            base = {f(L0): st[0], f(R0): st[1]}
+            new_atoms = sorted(({a for l in p.pc for a in l.atoms(sp.Function) if a.func == f} | {f(cur["left"]), f(cur["right"])}) - set(base), key=str)
+            if len(new_atoms) > 3:
+                run.broken("R7.8", dp, "iteration", F.loc(b, loop), "more than three new function values on one path")
+                return
+            for combo in itertools.product(SG, repeat=len(new_atoms)):
+                sigma = dict(base)
+                sigma.update(zip(new_atoms, combo))
+                if not all(True in truth_of(l, sigma) for l in p.pc):
+                    continue
+                n_trans += 1
+                ns = (sigma[f(cur["left"])], sigma[f(cur["right"])])
+                if ns not in seen:
+                    seen.add(ns)
+                    witness[ns] = (st, pi, dict((str(k), v) for k, v in sigma.items()))
+                    work.append(ns)
+    names = {"N": "negative", "NZ": "-0.0", "PZ": "+0.0", "P": "positive"}
+    bad = sorted(s_ for s_ in seen if s_ in (("P", "P"), ("N", "N")))
+    for s_ in bad:
+        frm, pi, sig = witness.get(s_, (None, None, None))
+        run.fail("R7.8", dp, "bracket-lost:f(left)=%s,f(right)=%s" % (names[s_[0]], names[s_[1]]), F.loc(b, loop),
+                 "the loop can reach a bracket whose ends both have %s function values (no sign change, no zero): from f(left) %s, f(right) %s with %s "
+                 "— IEEE semantics: x.is_sign_positive() tests the sign bit (−0.0 is negative), `x >= 0` is true for −0.0, a product of non-zeros may underflow to ±0"
+                 % (names[s_[0]], names[frm[0]] if frm else "?", names[frm[1]] if frm else "?", sig))
+    if not bad:
+        run.ok("R7.8", "bracket-kept:" + name, "%s: %d reachable sign states from %d entry states, %d transitions; every one brackets a root" % (name, len(seen), n_entry, n_trans))
+    run.floor("R7.8", dp, "entry sign states", n_entry, 2, F.loc(b))
+
+
 def check_nan_idiom(F, run):
     n_sites = 0
     for name, path in FNS.items():
@@ -462,6 +661,7 @@ def run(F, run, tier):
         guards.check_preconditions(F, run, "R7.1", b, path, reqs_for(name), allow_early_ok=(name == "bisection"), floor=2)
         check_success_criterion(F, run, name, b)
         check_cached_values(F, run, name, b, loop)
+        check_sign_reachability(F, run, name, b, loop)
         if name == "bisection":
             check_hull(F, run, b, loop)
             check_counter_loop(F, run, b, loop)
